@@ -1,13 +1,19 @@
 #!/bin/bash
-# tools/refactor_matrix.sh [R1 ...] : apply each behaviour-preserving refactoring (refactorings/<id>/patch.diff, written by
-# independent sub-agents that were given the 20 property statements as the contract to PRESERVE) to a scratch worktree of
+# tools/refactor_matrix.sh [-jN] [R1 ...] : apply each behaviour-preserving refactoring (refactorings/<id>/patch.diff, written
+# by independent sub-agents that were given the 20 property statements as the contract to PRESERVE) to a scratch worktree of
 # /repo HEAD, run the repository tests and ALL quick checks against it; every check must stay silent (exit 0).
-cd /verif; ids="${@:-$(ls refactorings)}"
-for r in $ids; do
-  wt=/tmp/wt/refm_$r; git -C /repo worktree remove --force $wt 2>/dev/null; git -C /repo worktree add --detach $wt HEAD -q
-  git -C $wt apply /verif/refactorings/$r/patch.diff || { echo "$r: patch does not apply"; continue; }
+# N refactorings are processed in parallel (default 3), each check with 16/N workers.
+cd "${VERIF_ROOT:-/verif}"; par=3
+if [[ "$1" == -j* ]]; then par="${1#-j}"; shift; fi
+ids="${@:-$(ls refactorings)}"
+one() {
+  r=$1; wt=/tmp/wt/refm_$r
+  git -C /repo worktree remove --force $wt 2>/dev/null; git -C /repo worktree add --detach $wt HEAD -q
+  git -C $wt apply "${VERIF_ROOT:-/verif}"/refactorings/$r/patch.diff || { echo "$r: patch does not apply"; git -C /repo worktree remove --force $wt; return; }
   t=$(cd $wt && /venv/bin/python -m pytest -q -p no:cacheprovider tests 2>&1 | tail -1)
-  echo "######## $r  tests: $t"
-  tools/probe_refactor.sh $wt | grep -v "rc=0" 
+  out=$(tools/probe_refactor.sh $wt | grep -v "rc=0")
+  echo "######## $r  tests: $t"; [ -n "$out" ] && echo "$out"
   git -C /repo worktree remove --force $wt
-done
+}
+export -f one; export VERIF_JOBS=$(( 16 / par > 2 ? 16 / par : 2 ))
+printf '%s\n' $ids | xargs -P $par -I{} bash -c 'one {}'
